@@ -1788,14 +1788,25 @@ def _handle_add_fields_stage(in_collection, unused_database, options):
             except KeyError:
                 continue
             parts = field.split('.')
-            for subfield in parts[:-1]:
-                # A copy: every expression of the stage reads the input document as it came in.
-                out_doc[subfield] = copy.copy(out_doc.get(subfield, {}))
-                if not isinstance(out_doc[subfield], dict):
-                    out_doc[subfield] = {}
-                out_doc = out_doc[subfield]
-            out_doc[parts[-1]] = out_value
+            out_doc[parts[0]] = _add_field(out_doc.get(parts[0]), parts[1:], out_value)
     return out_collection
+
+
+def _add_field(value, parts, new_value):
+    """The value with new_value at the dotted path below it.
+
+    The documents on the path are copies: every expression of the stage reads the input document
+    as it came in. A value on the path that is neither a document nor an array gives way to a
+    new document.
+    """
+    if not parts:
+        return new_value
+    if isinstance(value, (list, tuple)):
+        # In every item of an array, each with its own copy of the new value.
+        return [_add_field(item, parts, copy.deepcopy(new_value)) for item in value]
+    value = copy.copy(value) if isinstance(value, dict) else {}
+    value[parts[0]] = _add_field(value.get(parts[0]), parts[1:], new_value)
+    return value
 
 
 def _handle_out_stage(in_collection, database, options):
